@@ -397,6 +397,9 @@ func init() {
 
 func runC04(ctx *core.Ctx, idx int) *core.Result {
 	res := &core.Result{}
+	if idx == 1 {
+		nestedListBindingProbe(res)
+	}
 	k := &listKinds[idx%len(listKinds)]
 	w := c04Words[idx/len(listKinds)]
 	if ctx.Tier != "thorough" {
@@ -471,6 +474,30 @@ func runC04(ctx *core.Ctx, idx int) *core.Result {
 		dottedSchemaCase(ctx, idx, res)
 	}
 	return res
+}
+
+// nestedListBindingProbe is the directed input of the known finding C04/missed-instance/binding-chosen-in-nested-list:
+// a metavariable that an elided list nested inside another list binds first is not re-bound when the outer list then
+// fails to match (no backtracking across lists). The same pattern with the occurrences the other way round works.
+func nestedListBindingProbe(res *core.Result) {
+	pt := "@@\nvar x expression\n@@\n-tgtOuter(tgtInner(..., x, ...), x)\n+replOuter(x)\n"
+	src := "package p\n\nfunc f() {\n\ttgtOuter(tgtInner(1, 2), 1)\n\ttgtOuter(tgtInner(1, 2), 2)\n\ttgtOuter(tgtInner(1, 2), 3)\n}\n"
+	runs := applyAPI(pt, []string{src})
+	res.Evals++
+	out := runs[0].Out
+	rep := replayFiles(pt, src, out)
+	if runs[0].Pan != "" || runs[0].Err != "" {
+		res.Violate("C04/nested-list-probe-failed", runs[0].Pan+runs[0].Err, rep)
+		return
+	}
+	if !strings.Contains(out, "replOuter(1)") || !strings.Contains(out, "tgtOuter(tgtInner(1, 2), 3)") {
+		res.Violate("C04/wrong-rewrite/nested-list-probe", "the first call must be rewritten to replOuter(1), the third one is no instance", rep)
+		return
+	}
+	if !strings.Contains(out, "replOuter(2)") {
+		res.Violate("C04/missed-instance/binding-chosen-in-nested-list", "tgtOuter(tgtInner(1, 2), 2) is an instance with x = 2 (the inner elisions standing for '1' and for nothing) but is left unchanged", rep)
+	}
+	res.Sig("nested-list-binding-probe")
 }
 
 var dottedSchemas = func() []int {
